@@ -40,7 +40,8 @@ Section Main.
   Variable ofZ : Z -> V.
   Variable interp : list V -> list V -> V -> option V.
   Variable mk : V -> tree V.
-  Hypothesis OK : order_ok leb eqb.
+  Variable good : V -> bool.
+  Hypothesis OK : order_ok_on good leb eqb.
   Notation tree := (tree V).
 
   Definition keys_of (q : list string) (insts : list tree) : option (list V) :=
@@ -214,28 +215,31 @@ Section Main.
 
   (* the value handed to scipy for abscissa x is the one of the instance whose abscissa is x *)
   Lemma y_at_series q insts ks inst x p :
-    keys_of q insts = Some ks -> distinct eqb ks -> In inst insts -> abscissa ofZ q inst = Some x ->
+    keys_of q insts = Some ks -> allgood good ks -> distinct eqb ks -> In inst insts -> abscissa ofZ q inst = Some x ->
     y_at eqb ofZ (vm_build eqb ks insts) p x = value_at p inst.
   Proof.
-    intros K D I A. destruct (keys_of_in _ _ _ _ K I) as [i [x' [Ni [Nx A']]]].
+    intros K GK D I A. destruct (keys_of_in _ _ _ _ K I) as [i [x' [Ni [Nx A']]]].
     rewrite A in A'. inversion A'. subst x'.
-    destruct (vm_entry _ _ _ _ _ _ K D Nx Ni) as [E [Dv _]].
-    unfold y_at. rewrite (dict_get_eq leb eqb OK _ _ _ _ Dv E (eqb_refl _ _ OK x)). reflexivity.
+    destruct (vm_entry _ _ _ _ _ _ K D Nx Ni) as [E [Dv M]].
+    assert (Gx : good x = true) by (apply GK; apply (nth_error_In _ _ Nx)).
+    assert (Gm : allgood good (map fst (vm_build eqb ks insts))) by (rewrite M; exact GK).
+    unfold y_at. rewrite (dict_get_eq leb eqb good OK _ _ _ _ Gm Dv E (eqb_refl _ _ _ OK x Gx)). reflexivity.
   Qed.
 
   (* ---------- known points ---------- *)
   Lemma known_point assign insts q qv v ks i inst k :
-    num_of ofZ qv = Some v -> keys_of q insts = Some ks -> distinct eqb ks ->
+    num_of ofZ qv = Some v -> keys_of q insts = Some ks -> allgood good ks -> distinct eqb ks ->
     nth_error insts i = Some inst -> abscissa ofZ q inst = Some k -> eqb k v = true ->
     interp_at leb eqb ofZ interp mk assign insts q qv = OSame i.
   Proof.
-    intros Hv K D Ni A E. unfold interp_at. fold (keys_of q insts). rewrite Hv, K.
+    intros Hv K GK D Ni A E. unfold interp_at. fold (keys_of q insts). rewrite Hv, K.
     assert (Nk : nth_error ks i = Some k).
     { unfold keys_of in K. apply all_some_spec in K.
       assert (X : nth_error (map Some ks) i = Some (Some k)) by (rewrite <- K, <- A; apply map_nth_error; exact Ni).
       apply nth_error_map_inv in X. destruct X as [x [Nx Ex]]. inversion Ex. subst. exact Nx. }
-    destruct (vm_entry _ _ _ _ _ _ K D Nk Ni) as [En [Dv _]].
-    rewrite (dict_get_eq leb eqb OK _ _ _ _ Dv En E). reflexivity.
+    destruct (vm_entry _ _ _ _ _ _ K D Nk Ni) as [En [Dv M]].
+    assert (Gm : allgood good (map fst (vm_build eqb ks insts))) by (rewrite M; exact GK).
+    rewrite (dict_get_eq leb eqb good OK _ _ _ _ Gm Dv En E). reflexivity.
   Qed.
 
   Lemma same_sound assign insts q qv i :
@@ -311,14 +315,14 @@ Section Main.
   Theorem per_leaf assign template rest q qv r :
     wf template = true -> is_obj template ->
     interp_at leb eqb ofZ interp mk assign (template :: rest) q qv = ONew r ->
-    forall ks, keys_of q (template :: rest) = Some ks -> distinct eqb ks ->
+    forall ks, keys_of q (template :: rest) = Some ks -> allgood good ks -> distinct eqb ks ->
     exists v, num_of ofZ qv = Some v /\
       forall p, In p (fpaths template) -> (assign = true -> p <> qkeys q) ->
         exists y ys, get p r = Some (mk y) /\ interp (sort_keys leb ks) ys v = Some y /\
           Forall2 (fun x y' => exists inst, In inst (template :: rest) /\ abscissa ofZ q inst = Some x /\
                                             value_at p inst = Some y') (sort_keys leb ks) ys.
   Proof.
-    intros W O H ks K D. destruct (per_leaf_raw _ _ _ _ _ _ W O H) as [v [ks' [Hv [K' L]]]].
+    intros W O H ks K GK D. destruct (per_leaf_raw _ _ _ _ _ _ W O H) as [v [ks' [Hv [K' L]]]].
     rewrite K in K'. inversion K'. subst ks'. exists v. split; [exact Hv|].
     intros p Ip NE. destruct (L p Ip NE) as [y [Ly G]]. unfold leaf_value in Ly.
     destruct (yvals _ _ _ _ _) as [ys|] eqn:Y; [|discriminate].
@@ -333,7 +337,7 @@ Section Main.
     destruct (In_nth_error _ _ Ik) as [i Nx].
     destruct (keys_of_nth _ _ _ _ _ K Nx) as [inst [Ni A]].
     exists inst. split; [apply (nth_error_In _ _ Ni)|]. split; [exact A|].
-    rewrite <- (y_at_series _ _ _ _ _ p K D (nth_error_In _ _ Ni) A). exact Hy.
+    rewrite <- (y_at_series _ _ _ _ _ p K GK D (nth_error_In _ _ Ni) A). exact Hy.
   Qed.
 
   (* what must not change: everything that is not below / above an interpolated leaf or the variable *)
@@ -363,14 +367,14 @@ Section Main.
   Theorem variable_discarded template rest q qv r :
     wf template = true -> is_obj template ->
     interp_at leb eqb ofZ interp mk false (template :: rest) q qv = ONew r ->
-    forall ks, keys_of q (template :: rest) = Some ks -> distinct eqb ks ->
+    forall ks, keys_of q (template :: rest) = Some ks -> allgood good ks -> distinct eqb ks ->
     (* the template holds a float at the variable, found by the walk *)
     In (qkeys q) (fpaths template) ->
     exists v, num_of ofZ qv = Some v /\
       (* the routine reproduces the identity data x -> x at v *)
       (interp (sort_keys leb ks) (sort_keys leb ks) v = Some v -> get (qkeys q) r = Some (mk v)).
   Proof.
-    intros W O H ks K D Iq. destruct (per_leaf _ _ _ _ _ _ W O H ks K D) as [v [Hv L]].
+    intros W O H ks K GK D Iq. destruct (per_leaf _ _ _ _ _ _ W O H ks K GK D) as [v [Hv L]].
     exists v. split; [exact Hv|]. intro Id.
     destruct (L _ Iq (fun e => ltac:(discriminate))) as [y [ys [G [Iy F]]]].
     assert (E : ys = sort_keys leb ks).
@@ -393,49 +397,53 @@ Section Main.
 
   Lemma leaf_value_perm q insts insts' ks ks' v p :
     keys_of q insts = Some ks -> keys_of q insts' = Some ks' -> Permutation insts insts' ->
-    Permutation ks ks' -> distinct eqb ks ->
+    Permutation ks ks' -> allgood good ks -> distinct eqb ks ->
     leaf_value eqb ofZ interp (vm_build eqb ks insts) (sort_keys leb (map fst (vm_build eqb ks insts))) v p =
     leaf_value eqb ofZ interp (vm_build eqb ks' insts') (sort_keys leb (map fst (vm_build eqb ks' insts'))) v p.
   Proof.
-    intros K K' P Pk D. pose proof (distinct_perm eqb _ _ D Pk) as D'.
+    intros K K' P Pk GK D. pose proof (distinct_perm eqb _ _ D Pk) as D'.
+    pose proof (allgood_perm good _ _ GK (Permutation_sym Pk)) as GK'.
     assert (M : forall i k (Kk : keys_of q i = Some k), distinct eqb k -> map fst (vm_build eqb k i) = k).
     { intros i k Kk Dk. rewrite (vm_build_distinct _ _ _ (keys_of_length _ _ _ Kk) Dk). apply map_fst_combine.
       unfold numbered. etransitivity; [|symmetry; apply combine_length]. rewrite seq_length.
       rewrite (keys_of_length _ _ _ Kk). lia. }
-    rewrite (M _ _ K D), (M _ _ K' D'), <- (sort_keys_perm_eq leb eqb OK _ _ D Pk).
+    rewrite (M _ _ K D), (M _ _ K' D'), <- (sort_keys_perm_eq leb eqb good OK _ _ GK D Pk).
     unfold leaf_value, yvals. erewrite all_some_ext; [reflexivity|].
     intros x Ix. assert (Ik : In x ks) by (apply (Permutation_in _ (sort_keys_perm leb ks)); exact Ix).
     destruct (In_nth_error _ _ Ik) as [i Nx]. destruct (keys_of_nth _ _ _ _ _ K Nx) as [inst [Ni A]].
-    rewrite (y_at_series _ _ _ _ _ p K D (nth_error_In _ _ Ni) A).
-    rewrite (y_at_series _ _ _ _ _ p K' D' (Permutation_in _ P (nth_error_In _ _ Ni)) A). reflexivity.
+    rewrite (y_at_series _ _ _ _ _ p K GK D (nth_error_In _ _ Ni) A).
+    rewrite (y_at_series _ _ _ _ _ p K' GK' D' (Permutation_in _ P (nth_error_In _ _ Ni)) A). reflexivity.
   Qed.
 
   Definition same_shape (F : list path) (insts : list tree) : Prop :=
     forall t, In t insts -> wf t = true /\ is_obj t /\ fpaths t = F.
 
   Lemma order_free_same assign insts insts' q qv ks i :
-    Permutation insts insts' -> keys_of q insts = Some ks -> distinct eqb ks ->
+    Permutation insts insts' -> keys_of q insts = Some ks -> allgood good ks -> distinct eqb ks ->
     interp_at leb eqb ofZ interp mk assign insts q qv = OSame i ->
     exists j, interp_at leb eqb ofZ interp mk assign insts' q qv = OSame j /\ nth_error insts' j = nth_error insts i.
   Proof.
-    intros P K D H. destruct (same_sound _ _ _ _ _ H ks K D) as [v [inst [k [Hv [Ni [A E]]]]]].
+    intros P K GK D H. destruct (same_sound _ _ _ _ _ H ks K D) as [v [inst [k [Hv [Ni [A E]]]]]].
     destruct (keys_of_perm _ _ _ _ K P) as [ks' [K' Pk]].
     destruct (In_nth_error _ _ (Permutation_in _ P (nth_error_In _ _ Ni))) as [j Nj].
     exists j. split; [|rewrite Ni; exact Nj].
-    apply (known_point assign insts' q qv v ks' j inst k); auto. apply (distinct_perm eqb _ _ D Pk).
+    apply (known_point assign insts' q qv v ks' j inst k); auto.
+    - apply (allgood_perm good _ _ GK (Permutation_sym Pk)).
+    - apply (distinct_perm eqb _ _ D Pk).
   Qed.
 
   Lemma order_free_new assign insts insts' q qv ks F r :
-    Permutation insts insts' -> keys_of q insts = Some ks -> distinct eqb ks -> same_shape F insts ->
+    Permutation insts insts' -> keys_of q insts = Some ks -> allgood good ks -> distinct eqb ks -> same_shape F insts ->
     interp_at leb eqb ofZ interp mk assign insts q qv = ONew r ->
     exists r', interp_at leb eqb ofZ interp mk assign insts' q qv = ONew r' /\
                forall p, In p F -> get p r' = get p r.
   Proof.
-    intros P K D Sh H.
+    intros P K GK D Sh H.
     destruct (interp_at_new _ _ _ _ _ H) as [v [ks0 [template [rest [Hv [K0 [E [Dg [r0 [Fo Fin]]]]]]]]]].
     rewrite K in K0. inversion K0. subst ks0. clear K0.
     destruct (keys_of_perm _ _ _ _ K P) as [ks' [K' Pk]].
     pose proof (distinct_perm eqb _ _ D Pk) as D'.
+    pose proof (allgood_perm good _ _ GK (Permutation_sym Pk)) as GK'.
     destruct insts' as [|template' rest']; [subst insts; apply Permutation_sym, Permutation_nil in P; discriminate|].
     assert (It : In template insts) by (subst insts; left; reflexivity).
     assert (It' : In template' insts) by (apply (Permutation_in _ (Permutation_sym P)); left; reflexivity).
@@ -446,7 +454,7 @@ Section Main.
       destruct (eqb k v) eqn:Ek; [|reflexivity]. exfalso.
       apply (Permutation_in _ (Permutation_sym Pk)) in Ik. destruct (In_nth_error _ _ Ik) as [i Nk].
       destruct (keys_of_nth _ _ _ _ _ K Nk) as [inst [Ni A]].
-      pose proof (known_point assign insts q qv v ks i inst k Hv K D Ni A Ek) as X. rewrite X in H. discriminate. }
+      pose proof (known_point assign insts q qv v ks i inst k Hv K GK D Ni A Ek) as X. rewrite X in H. discriminate. }
     (* the same values are computed for every float path *)
     set (val := leaf_value eqb ofZ interp (vm_build eqb ks insts) (sort_keys leb (map fst (vm_build eqb ks insts))) v) in *.
     set (val' := leaf_value eqb ofZ interp (vm_build eqb ks' (template' :: rest'))
@@ -488,7 +496,7 @@ Section Main.
   Qed.
 
   Theorem order_free assign insts insts' q qv ks F :
-    Permutation insts insts' -> keys_of q insts = Some ks -> distinct eqb ks -> same_shape F insts ->
+    Permutation insts insts' -> keys_of q insts = Some ks -> allgood good ks -> distinct eqb ks -> same_shape F insts ->
     match interp_at leb eqb ofZ interp mk assign insts q qv, interp_at leb eqb ofZ interp mk assign insts' q qv with
     | OSame i, OSame j => nth_error insts' j = nth_error insts i /\ nth_error insts i <> None
     | ONew r, ONew r' => forall p, In p F -> get p r' = get p r
@@ -496,30 +504,31 @@ Section Main.
     | _, _ => False
     end.
   Proof.
-    intros P K D Sh.
+    intros P K GK D Sh.
     destruct (keys_of_perm _ _ _ _ K P) as [ks' [K' Pk]].
     pose proof (distinct_perm eqb _ _ D Pk) as D'.
+    pose proof (allgood_perm good _ _ GK (Permutation_sym Pk)) as GK'.
     assert (Sh' : same_shape F insts') by (intros t It; apply Sh; apply (Permutation_in _ (Permutation_sym P)); exact It).
     destruct (interp_at leb eqb ofZ interp mk assign insts q qv) as [i|r|] eqn:H.
-    - destruct (order_free_same _ _ _ _ _ _ _ P K D H) as [j [H' N]]. rewrite H'. split; [exact N|].
+    - destruct (order_free_same _ _ _ _ _ _ _ P K GK D H) as [j [H' N]]. rewrite H'. split; [exact N|].
       destruct (same_sound _ _ _ _ _ H ks K D) as [v [inst [k [_ [Ni _]]]]]. rewrite Ni. discriminate.
-    - destruct (order_free_new _ _ _ _ _ _ _ _ P K D Sh H) as [r' [H' L]]. rewrite H'. exact L.
+    - destruct (order_free_new _ _ _ _ _ _ _ _ P K GK D Sh H) as [r' [H' L]]. rewrite H'. exact L.
     - destruct (interp_at leb eqb ofZ interp mk assign insts' q qv) as [j|r'|] eqn:H'; [| |exact I].
-      + destruct (order_free_same _ _ _ _ _ _ _ (Permutation_sym P) K' D' H') as [i [X _]]. rewrite X in H. discriminate.
-      + destruct (order_free_new _ _ _ _ _ _ _ _ (Permutation_sym P) K' D' Sh' H') as [r [X _]]. rewrite X in H. discriminate.
+      + destruct (order_free_same _ _ _ _ _ _ _ (Permutation_sym P) K' GK' D' H') as [i [X _]]. rewrite X in H. discriminate.
+      + destruct (order_free_new _ _ _ _ _ _ _ _ (Permutation_sym P) K' GK' D' Sh' H') as [r [X _]]. rewrite X in H. discriminate.
   Qed.
   (* ---------- definedness: a query on a well-formed series never raises ---------- *)
   Lemma all_some_length {A} (l : list (option A)) r : all_some l = Some r -> List.length r = List.length l.
   Proof. intro H. apply all_some_spec in H. rewrite H, map_length. reflexivity. Qed.
 
   Theorem defined assign insts q qv ks F v :
-    insts <> [] -> keys_of q insts = Some ks -> distinct eqb ks -> same_shape F insts ->
+    insts <> [] -> keys_of q insts = Some ks -> allgood good ks -> distinct eqb ks -> same_shape F insts ->
     num_of ofZ qv = Some v ->
     (* the routine accepts these abscissae (e.g. at least two of them differ) *)
     (forall ys, List.length ys = List.length ks -> exists y, interp (sort_keys leb ks) ys v = Some y) ->
     interp_at leb eqb ofZ interp mk assign insts q qv <> OErr.
   Proof.
-    intros NE K D Sh Hv Tot. unfold interp_at. fold (keys_of q insts). rewrite Hv, K.
+    intros NE K GK D Sh Hv Tot. unfold interp_at. fold (keys_of q insts). rewrite Hv, K.
     destruct (dict_get eqb v (vm_build eqb ks insts)) as [[i t]|] eqn:Dg; [discriminate|].
     destruct insts as [|template rest]; [contradiction|].
     destruct (Sh template (or_introl eq_refl)) as [W [O Fp]].
@@ -534,7 +543,7 @@ Section Main.
       destruct (all_some_total (y_at eqb ofZ (vm_build eqb ks (template :: rest)) p) (sort_keys leb ks)) as [ys Y].
       - intros x Ix. assert (Ik : In x ks) by (apply (Permutation_in _ (sort_keys_perm leb ks)); exact Ix).
         destruct (In_nth_error _ _ Ik) as [i Nx]. destruct (keys_of_nth _ _ _ _ _ K Nx) as [inst [Ni A]].
-        rewrite (y_at_series _ _ _ _ _ p K D (nth_error_In _ _ Ni) A).
+        rewrite (y_at_series _ _ _ _ _ p K GK D (nth_error_In _ _ Ni) A).
         destruct (Sh inst (nth_error_In _ _ Ni)) as [Wi [_ Fi]].
         destruct (fpaths_get p inst Wi ltac:(rewrite Fi, <- Fp; exact Ip)) as [v0 G].
         unfold value_at. rewrite G. exists v0. reflexivity.
